@@ -190,32 +190,42 @@ def euler_circuit(n):
 
 
 def select_subset(fa, reqs, n, seed):
-    """a subset that contains every target, every function once per target at least for one signature."""
+    """n requests, targets taken in turn (so every target is present), functions rotating with the seed, one
+    signature per (target, function) before a second one is taken."""
     by = {}
     for r in reqs:
-        by.setdefault((r[0], r[1]), []).append(r)
-    keys = sorted(by)
+        by.setdefault(r[0], {}).setdefault(r[1], []).append(r)
+    targets = sorted(by)
     out = []
-    # one signature per (target, function), rotating by seed, until n
-    i = 0
-    while len(out) < n and i < 4:
-        for k in keys:
-            lst = by[k]
-            if i < len(lst):
-                r = lst[(i + seed) % len(lst)]
+    rnd = 0
+    while len(out) < n and rnd < 200:
+        progressed = False
+        for t in targets:
+            fns = sorted(by[t])
+            f = fns[(rnd + seed) % len(fns)]
+            lst = by[t][f]
+            k = rnd // len(fns)
+            if k < len(lst):
+                r = lst[(k + seed) % len(lst)]
                 if r not in out:
                     out.append(r)
+                    progressed = True
             if len(out) >= n:
                 break
-        i += 1
+        rnd += 1
+        if not progressed and rnd > 64:
+            break
     return out[:n]
 
 
 def run(run):
     thorough = run.tier == "thorough"
     fa = setup_repo_import()
-    reqs = gen.requests(fa)
+    shipped = gen.requests(fa)
+    extra = gen.extra_requests(fa)
+    reqs = shipped + extra
     run.counters["requests"] = len(reqs)
+    run.counters["requests_shipped_tables"] = len(shipped)
     # pristine table
     nsh = 32
     parts = run.map(MOD, "w_table", [dict(reqs=[list(r) for r in reqs[i::nsh]]) for i in range(nsh)])
@@ -223,29 +233,40 @@ def run(run):
     for s in run.sets.pop("table", []):
         table.update(json.loads(s))
     assert len(table) == len(reqs), (len(table), len(reqs))
-    R2 = reqs if thorough else select_subset(fa, reqs, 60, run.seed)
+    R2 = shipped if thorough else select_subset(fa, shipped, 60, run.seed)
+    # the small-graph family: synthetic definitions (all targets), the apmath->lax generator entries, the lax table
+    SY = [r for r in extra if ":" in r[1]] + (([r for r in extra if ":" not in r[1]]) if thorough else select_subset(fa, [r for r in extra if ":" not in r[1]], 8, run.seed))
     run.counters["depth2_requests"] = len(R2)
+    run.counters["depth2_requests_small_family"] = len(SY)
     pairs = [[list(p), list(r)] for p in R2 for r in R2]
+    pairs += [[list(p), list(r)] for p in SY for r in SY]
+    bridge = R2 if thorough else [next(r for r in R2 if r[0] == t) for t in gen.TARGETS]
+    pairs += [[list(p), list(r)] for p in bridge for r in SY] + [[list(p), list(r)] for p in SY for r in bridge]
     nsh = 256
     tasks = [dict(hists=pairs[i::nsh], table=table) for i in range(nsh)]
     run.map(MOD, "w_histories", tasks)
     trans = len(pairs) * 2
     if thorough:
-        R3 = select_subset(fa, reqs, 24, run.seed)
+        R3 = select_subset(fa, shipped, 24, run.seed) + [r for r in SY if r[1] in ("syn:syn_blend", "syn:syn_muladd")][:12]
         triples = [[list(a), list(b), list(c)] for a in R3 for b in R3 for c in R3]
         run.map(MOD, "w_histories", [dict(hists=triples[i::nsh], table=table) for i in range(nsh)])
         trans += len(triples) * 3
     # walks: Eulerian circuit over the subset (quick) / all requests (thorough), cut into 16 walkers that each
-    # start pristine and run a long history
-    Rw = reqs if thorough else R2
-    circ = euler_circuit(len(Rw))
-    seq = [list(Rw[v]) for v in circ]
+    # start pristine and run a long history; one more circuit over the small-graph family
+    Rw = shipped if thorough else R2
+    walks = []
     nw = 16
-    L = (len(seq) + nw - 1) // nw
-    walks = [seq[max(0, i * L - 1):(i + 1) * L] for i in range(nw)]
+    total_walk = 0
+    for fam, nwf in ((Rw, 12), (SY, 4)):
+        circ = euler_circuit(len(fam))
+        seq = [list(fam[v]) for v in circ]
+        total_walk += len(seq)
+        L = (len(seq) + nwf - 1) // nwf
+        walks += [seq[max(0, i * L - 1):(i + 1) * L] for i in range(nwf)]
     run.map(MOD, "w_walk", [dict(seq=w, table=table) for w in walks if w])
-    run.counters["walk_generations"] = len(seq)
-    trans += len(seq)
+    run.counters["walk_generations"] = total_walk
+    trans += total_walk
+    seq = list(range(total_walk))
     seeds = [0, 1, 2, 12345] if not thorough else list(range(0, 31)) + [12345]
     seeds = seeds[:-1] + [(run.seed * 7919 + 13) % 4294967295]
     run.map(MOD, "w_seed", [dict(seed=s, reqs=[list(r) for r in reqs], table=table) for s in seeds])
@@ -257,8 +278,8 @@ def run(run):
     run.coverage_extra["max_depth"] = int(max(len(w) for w in walks))
     run.coverage_extra["hash_seeds"] = seeds
     run.rule = (
-        f"{len(reqs)} requests (5 targets); pristine table from forked children of an import-only zygote; all ordered pairs over {len(R2)} requests "
-        + ("(all requests); all triples over 24; " if thorough else "(subset covering every (target, function)); ")
+        f"{len(reqs)} requests ({len(shipped)} from the five trace_arguments tables of results/update.py, {len(extra)} more: lax table, the six tools/generate_apmath_lax.py entries, four synthetic definitions x six targets); pristine table from forked children of an import-only zygote; all ordered pairs over {len(R2)} requests "
+        + ("(all table requests); all triples over 36; " if thorough else "(subset covering every (target, function)); ") + f"all ordered pairs over the {len(SY)} small-graph requests and between them and {len(bridge)} table requests; "
         + f"{nw} long walks covering an Eulerian circuit of the complete request digraph ({len(seq)} generations); full catalogue under {len(seeds)} hash seeds in both orders; "
         "states = distinct values of (tmp-symbol counter, definition registry, warn-once cache size, vfunc cache size) observed after a history"
     )
